@@ -17,11 +17,11 @@ P = {
  "C07": ("LibTrace", "TLA+ spec (RFC4648: Encode/Region/KeyOf) + TLC trace validation of DecodeSecret and spelling groups on every entry point", "5/C07"),
  "C05": ("LibTrace", "TLA+ spec (RFC6287: Msg layout, EffCfg from the suite name; Lib: GenOCRAExpect) + TLC trace validation of recorded GenerateOCRA calls; message observed byte for byte through the HMAC hook", "5/C05"),
  "C06": ("LibTrace", "TLA+ spec (Lib: ValOCRAExpect = iff with generation) + TLC trace validation of recorded ValidateOCRA calls (edits, same-value strings, nearest admissible neighbours)", "5/C06"),
- "C08": ("LibTrace", "TLA+ spec with stream state (usedIv: consumed intervals of the substituted crypto/rand.Reader) + TLC trace validation of recorded RandomSecret histories, sequential and concurrent (concurrent calls held at a rendezvous inside the substituted source)", "5/C08"),
+ "C08": ("LibTrace", "TLA+ spec with stream state (usedIv: consumed intervals of the substituted crypto/rand.Reader) + TLC trace validation of recorded RandomSecret histories, sequential and concurrent (concurrent calls held at a rendezvous inside the substituted source) and of TLC-generated call histories (LibGen)", "5/C08"),
  "C09": ("Taint", "TLA+ information-flow transition system (spec/Taint.tla) instantiated with the SSA data-flow graph re-extracted from the current tree (native, js/wasm, REST); TLC computes the taint fixpoint and checks NoLeak + non-vacuity", "5/C09"),
  "C10": ("LibTrace", "TLA+ spec: reply relation total over values/errors only (Returned) for every exported operation + TLC trace validation of calls with extreme arguments under recover() and a watchdog, in both build configurations (native; harness compiled for js/wasm and run under Node for the functions exported only there)", "5/C10"),
- "C11": ("Pools", "TLA+ model of the pooled-buffer protocol (spec/Pools.tla) model-checked exhaustively (2-3 callers x adversary x GC); TLC-generated behaviours replayed on the real code through scheduler gates and validated by PoolsTrace; free-running race-detector tier validated against the sequential specification", "5/C11"),
- "C12": ("LibTrace", "TLA+ frame conditions (FrameFails: argument memory incl. spare capacity, defaults, registry, retained results) + TLC trace validation of recorded memory snapshots", "5/C12"),
+ "C11": ("Pools", "TLA+ model of the pooled-buffer protocol (spec/Pools.tla) model-checked exhaustively (2-3 callers x adversary x GC); TLC-generated behaviours replayed on the real code through scheduler gates and validated by PoolsTrace; TLC-generated sequential histories (LibGen) compared call by call with fresh-process runs; free-running race-detector tier validated against the sequential specification", "5/C11"),
+ "C12": ("LibTrace", "TLA+ frame conditions (FrameFails: argument memory incl. spare capacity, defaults, registry, retained results) + TLC trace validation of recorded memory snapshots, incl. TLC-generated call histories (LibGen)", "5/C12"),
  "C14": ("LibTrace", "TLA+ spec (RFC6287: SuiteUsable, Admissible) + TLC trace validation of the length grid 0..140 per field and the usability grid through Validate/Generate/ValidateOCRA", "5/C14"),
  "C15": ("LibTrace", "TLA+ spec (RFC6287: Reading = independent grammar reading of suite strings) + TLC trace validation of NewRawSuite/ListSuites/IsKnownSuite/SuiteConfigFromRaws over advertised names, grammar enumeration and malformed classes", "5/C15"),
  "C16": ("LibTrace", "TLA+ spec (Lib: URL round-trip law, Dec: Atoi denotation) + TLC trace validation of generate->String->Parse->ParseOTPAuthURL round trips and parse-only texts", "5/C16"),
@@ -74,8 +74,8 @@ def main():
              "kind_free_text": "TLA+ description of the five JS-visible functions over the native Lib operators; harness/wasm.go generates calls and merges results, harness/js/driver.js runs them under Node 20 against GOOS=js GOARCH=wasm build of the current tree and a scratch copy of otp-js/src/index.js"},
             {"name": "Taint", "path": "spec/Taint.tla", "serves_properties": ["C09"],
              "kind_free_text": "TLA+ taint-propagation system over a program graph; constants come from harness/ssagraph (x/tools go/ssa + CHA call graph) run on the current tree"},
-            {"name": "LibTrace", "path": "spec/LibTrace.tla", "serves_properties": [p for p in ids if p in P and P[p][0] == "LibTrace"],
-             "kind_free_text": "explicit TLA+ specification of package otp (spec/Lib.tla and data modules) checked by TLC; conformance by trace validation of events recorded from the real code (harness/), small-scope exhaustive model configurations (*_MC.cfg)"},
+            {"name": "LibTrace", "path": "spec/LibTrace.tla", "serves_properties": [p for p in ids if p in P and (P[p][0] == "LibTrace" or p in ("C11", "C20"))],
+             "kind_free_text": "explicit TLA+ specification of package otp (spec/Lib.tla and data modules) checked by TLC; conformance by trace validation of events recorded from the real code (harness/), small-scope exhaustive model configurations (Lemmas.cfg, Window_*.cfg) and TLAPS lemmas (WindowLemma, StepLemma); LibGen generates call histories for C08/C11/C12; also validates the library events of C11's free-running tier and the js/wasm-only functions for C20"},
         ],
         "checks": checks,
         "notes": "All checks: ./check <ID> quick|thorough; exit 0 held / 1 VIOLATION (reproduced, not a listed known finding) / 2 inconclusive. See DESIGN.md.",
@@ -89,7 +89,25 @@ LEVEL_DEFAULT = ("Explicit TLA+ specification checked by TLC: small-scope config
                  "at real scale (64-bit words, base32, dynamic truncation, window sets evaluated by TLC). Inputs are "
                  "enumerated from the property's own case analysis, so the universally quantified statement is sampled "
                  "at every boundary the case analysis has, not proved for all 2^64 counters.")
-LEVEL_TEXT = {}
+LEVEL_TEXT = {
+ "C09": ("Explicit TLA+ information-flow system (spec/Taint.tla) model-checked by TLC on the data-flow graph that is re-extracted "
+         "from the current tree on every run (three build configurations): TLC computes the taint fixpoint and the invariant "
+         "NoLeak says no variable-time comparison site sees HMAC-derived data on one side and submitted text on the other. "
+         "Exhaustive over the extracted graph; the binding to the code is the extractor, not a trace."),
+ "C11": ("Explicit TLA+ model of the pooled-buffer protocol model-checked exhaustively (2-3 callers x adversary x collections), "
+         "TLC-generated interleavings replayed on the real code through scheduler gates and validated against the model, "
+         "TLC-generated sequential histories (LibGen) run in one process and call by call in fresh processes, and a free-running "
+         "race-detector tier validated against the sequential specification. Exhaustive at model level and at gate granularity "
+         "for the generated schedules; sampled below that granularity."),
+ "C18": ("Explicit TLA+ description of the ten endpoints over the library specification; small-scope model of request handling "
+         "checked exhaustively; every exchange with the real server binary (built from the current tree) validated by TLC. "
+         "Sampled over request bodies at every boundary the endpoint mapping has, sequentially, concurrently and in per-endpoint bursts."),
+ "C19": ("Explicit TLA+ model of request handling (bounded work, status classes, received ~> responded under fairness) checked "
+         "exhaustively with a negative twin; fault sequences interleaved with probes against the real server validated by TLC."),
+ "C20": ("Explicit TLA+ description of the JS argument-marshalling layer composed with the native library specification; every call "
+         "made under Node to the freshly built module (global names and package exports) validated by TLC, plus the js/wasm-only "
+         "Go functions called from the harness compiled for js/wasm."),
+}
 NOTES = {
  "C20": "Node 20, syscall/js and the toolchain's wasm_exec.js are environment. Numbers are exercised up to 2^53 (exactly representable); fractional arguments only where they are exactly representable. The package path uses the repository's own otp-js/src/index.js and wasm_exec.js with lib/otp.wasm replaced by the fresh build (the committed binary is a release artefact and is not judged).",
  "C18": "Black-box: fasthttp, encoding/json and net/http are environment. The server's clock is bounded by the client's clock before and after the exchange (same host). HMAC oracle as elsewhere. Request strings are valid UTF-8; texts with Unicode white space at the edges are left undecided.",
